@@ -1,7 +1,7 @@
 (** C02 — splitting an execution across receiver lifetimes is invisible to the host.
     Property theorems only. *)
 From TT Require Import Tunnel.ReceiverAbs Tunnel.ReceiverInv Tunnel.ReceiverHistInv
-  Tunnel.ReceiverAbsProofs Tunnel.ReceiverCuts.
+  Tunnel.ReceiverAbsProofs Tunnel.ReceiverCuts Judge.Recv Judge.RecvOk Judge.RecvOkOfCorr Judge.C02.
 From stdpp Require Import gmap.
 Local Open Scope N_scope.
 
@@ -43,6 +43,13 @@ Theorem C02_persisted_state_step : forall a ev,
   | _ => a
   end.
 Proof. exact (fun a ev => eq_refl). Qed.
+
+(** Link to the check (state clause): whenever the judge finds model and implementation equal on a
+    history in scope, the implementation's persisted state and acceptance results are those of the
+    abstract receiver ([ok_abstract]), and the state judge answers [Agree]. *)
+Theorem C02_state_judge_agrees_whenever_corr : forall steps impl,
+  hist_scope hist_init steps -> corr_history steps impl = true -> judge_c02_state steps impl = Agree.
+Proof. exact judge_c02_state_agree_of_corr. Qed.
 
 Example C02_example :
   let cs := mk_cs KSpan "s" "t" LInfo None None None ["a"%string] in
